@@ -53,10 +53,13 @@ Adopt(e) == st' = [st EXCEPT ![e.n].s = FromPost(e.post), ![e.n].plain = PlainOf
 
 Boot(e) ==
   LET c == [self |-> e.n, nid |-> <<e.n, e.inc>>, T |-> e.T, ka |-> e.ka, adv |-> SeqSet(e.adv), key |-> e.key,
-            trusted |-> SeqSet(e.trusted), claims |-> e.claims, plain |-> e.plain, learn |-> e.learn, bc |-> e.bc, st |-> e.st]
+            trusted |-> SeqSet(e.trusted), claims |-> e.claims, plain |-> e.plain,
+            learn |-> ModeFlags(e.mode, e.dev)[1], bc |-> ModeFlags(e.mode, e.dev)[2], st |-> e.st]
       obs == FromPost(e.post) IN
   /\ st' = [st EXCEPT ![e.n] = [up |-> TRUE, s |-> obs, c |-> c, plain |-> PlainOf(e.post)]]
   /\ inst' = inst \cup {[nid |-> c.nid, key |-> e.key, trusted |-> SeqSet(e.trusted), claims |-> e.claims, T |-> e.T]}
+  \* C13 / C10 / C11: which modes learn from traffic and which send unknown destinations to everybody
+  /\ Chk({"C10", "C11", "C13"}, "boot-mode-flags", <<e.learn, e.bc>> = ModeFlags(e.mode, e.dev))
   /\ When(e.fresh, Chk({"C12", "C14", "C15"}, "boot-state",
                     obs = [peers |-> {}, pend |-> {}, claims |-> {}, cache |-> {}, cx |-> {}, cseq |-> <<>>, own |-> c.adv \cup {e.n}, np |-> now, nr |-> now + OWN_RESET, rc |-> <<>>]))
   /\ sess' = [sess EXCEPT ![e.n] = {}]
